@@ -158,4 +158,21 @@ theorem equation_examples :
       .ok (.eq 61 (.atom 0) (.expr (.tern (.atom 1) (.atom 2) (.atom 3)))) [] ∧
     runEq chaiCfg Gen.precAssignSymbols 99 [.atom 0, .asg 61] = .error := by decide
 
+/-! ### fuel -/
+
+/-- **Fuel is only fuel**: a run of the precedence parser that ends — in a tree, in "no match" or in an error — ends in exactly the same way
+    with any larger amount of fuel; so "for all sufficiently large fuel" above speaks about ONE result per token string. -/
+theorem precedence_result_independent_of_fuel (c : Cfg) (f g : Nat) (job : Job) (h : run c f job ≠ .fuel) (hfg : f ≤ g) :
+    run c g job = run c f job := by
+  obtain ⟨k, rfl⟩ : ∃ k, g = f + k := ⟨g - f, by omega⟩
+  exact run_le c f job h k
+
+/-- hence ANY amount of fuel with which the parser finishes on a printed tree gives that tree -/
+theorem precedence_roundtrip_any_fuel (c : Cfg) (hN : 2 ≤ c.N) (e : E) (hwf : wf c e = true) (rest : List Tok) (hrest : okAfter c 0 rest)
+    (f : Nat) (h : run c f (.level 0 (raw c e ++ rest)) ≠ .fuel) : run c f (.level 0 (raw c e ++ rest)) = .ok e rest := by
+  obtain ⟨f0, h0⟩ := precedence_roundtrip c hN e hwf rest hrest
+  have a := precedence_result_independent_of_fuel c f (max f f0) _ h (by omega)
+  rw [← a]
+  exact h0 _ (by omega)
+
 end ChaiVerif.C03Prec
